@@ -21,7 +21,8 @@ LEVEL = 'fault_enumeration'
 RULE = ('For each base document (independently generated, conformant, fault-free validation clean) the fault catalogue is '
         'enumerated over every applicable (segment, element/component, kind): too_long, too_short, bad_code, bad_class, '
         'bad_date, bad_time, missing_required_ele, not_used_ele, too_many_ele, too_many_comp, syntax_note, '
-        'missing_required_seg, unknown_seg, misplaced_seg, seg_over_max, loop_over_max; up to a per-document cap (a seeded '
+        'missing_required_comp, comp_in_simple, missing_required_seg, missing_required_loop, unknown_seg (inside a set and between the '
+        'envelope segments), misplaced_seg, seg_over_max, loop_over_max; up to a per-document cap (a seeded '
         'sample when the enumeration is larger). One evaluation = one validation of a singly-faulted document. '
         'distinct_nontrivial = distinct (map file, node path, element position, fault kind) keys.')
 ASSUMPTIONS = [
